@@ -5,7 +5,7 @@
 From Coq Require Import Extraction ExtrOcamlBasic.
 From SB Require Import Base.Prelude Gen.Generated Model.Codec Model.Colors Spec.CodecSpec
   Model.Crc Model.Container Spec.CrcSpec Spec.ContainerSpec Model.Loaders Model.Rth Spec.RthSpec
-  Base.Num Model.Poly Model.Traj Spec.BezierSpec Spec.TrajSpec Model.Yaw Spec.YawSpec.
+  Base.Num Model.Poly Model.Traj Spec.BezierSpec Spec.TrajSpec Model.Yaw Spec.YawSpec Model.Light Spec.LightSpec.
 
 Extraction Language OCaml.
 
@@ -24,4 +24,6 @@ Extraction "sbmodel.ml"
   tol_at final_tol traj_pos encode_traj wf_straj total_ms bezier make_bezier horner deriv scale stretch add_constant QOps
   (* C10 *)
   yaw_init yaw_is_empty yseek ycursor0 ylanding_cursor yaw_of yaw_rate_of yaw_total_duration_msec
-  yaw_tol yaw_tol_at yaw_spec rate_spec encode_yaw wf_syaw.
+  yaw_tol yaw_tol_at yaw_spec rate_spec encode_yaw wf_syaw
+  (* C02 C09 *)
+  player_fresh light_seek obs_color obs_pyro obs_ended obs_next state_at spec_color spec_pyro spec_ended spec_next decode.
